@@ -13,14 +13,18 @@ Sizes(kind, shape) == IF Tier = "quick" THEN (IF shape = "gamma4" /\ kind = "uni
 Maps == IF Tier = "quick" THEN {<<0, 0>>, <<Neg(6), 0>>, <<6, Neg(20000)>>, <<0, 5000>>}
         ELSE {<<0, 0>>, <<Neg(6), 0>>, <<6, 0>>, <<6, Neg(20000)>>, <<0, 5000>>, <<Neg(6), 3000>>, <<3, Neg(1000)>>, <<0, 1>>}
 Members == {[kind |-> k, shape |-> s, n |-> n, alog10 |-> m[1], bsd |-> m[2]] :
-              k \in {"unimodal", "kde", "kde_cv", "kde_cv_sub"}, s \in UniShapes \cup KdeShapes, n \in {300, 400, 1000, 5000}, m \in Maps}
+              k \in {"unimodal", "kde", "kde_cv", "kde_cv_sub", "kde_2d"}, s \in UniShapes \cup KdeShapes, n \in {300, 400, 1000, 5000}, m \in Maps}
 \* "kde_cv": GaussianKDE with the cross-validated bandwidth (one skewed and one heavy-tailed shape, the unmapped and one mapped sample)
-Valid(d) == /\ d.shape \in (IF d.kind = "unimodal" THEN UniShapes ELSE KdeShapes)
+\* "spike": a narrow tall peak on a broad base, for the kernel estimators with a data-driven (non-default) bandwidth and the default one
+\* "kde_2d": the sample handed over as a 2-D array of stacked chains
+Valid(d) == /\ (d.shape = "spike" => d.kind \in {"kde", "kde_cv"} /\ <<d.alog10, d.bsd>> \in {<<0, 0>>, <<Neg(6), 0>>})
+            /\ (d.shape # "spike" => d.shape \in (IF d.kind = "unimodal" THEN UniShapes ELSE KdeShapes))
+            /\ (d.kind = "kde_2d" => d.shape = "gamma4" /\ d.n = 400 /\ <<d.alog10, d.bsd>> = <<0, 0>>)
             /\ (d.kind = "kde_cv_sub" => d.shape = "gamma4" /\ d.n <= 1000 /\ <<d.alog10, d.bsd>> = <<0, 0>>)     \* max_cv_samples below the sample size
             /\ (d.kind = "kde_cv" => d.shape \in {"gamma4", "t8"} /\ d.n <= 1000 /\ <<d.alog10, d.bsd>> \in {<<0, 0>>, <<6, Neg(20000)>>, <<Neg(6), 0>>})
             /\ d.n \in Sizes(d.kind, d.shape)
             /\ (Tier = "quick" /\ d.n = 5000 => d.alog10 = 0)
-            /\ (Tier = "quick" /\ d.kind \in {"kde", "kde_cv", "kde_cv_sub"} => d.bsd # 5000)
+            /\ (Tier = "quick" /\ d.kind \in {"kde", "kde_cv", "kde_cv_sub", "kde_2d"} => d.bsd # 5000)
 VARIABLES d, out
 Init == d \in {m \in Members : Valid(m)} /\ out = 0
 Next == out = 0 /\ out' = 1 /\ UNCHANGED d /\ PrintT(ToJson(d))
